@@ -352,7 +352,22 @@ pub fn c16_cases(rng: &mut Rng, tier: &str) -> (Vec<Case>, bool) {
             w.start("PRINT 1");
             w.op("take");
             w.op("snap");
-            cases.push(case_from(w, vec!["snap-caps".into(), "err-then-idle".into()], "targeted".into(), true, t.replace('\n', " | ")));
+            let mut checks: Vec<String> = vec!["snap-caps".into(), "err-then-idle".into()];
+            // where the outcome is known: the cap is (not) exceeded
+            if t.starts_with("10 GOSUB 10") || t.contains("IF D < 33 THEN GOSUB 10") || t.starts_with("10 DEF FNA(X) = FNA(X) + 1") {
+                checks.push("some-call-fails OutOfMemory.StackOverflow".into());
+            }
+            if t.contains("IF D < 32 THEN GOSUB 10") {
+                checks.push("no-call-fails OutOfMemory".into());
+            }
+            if t.starts_with("1 DEF FNA(X)=FNB(X)+1") {
+                // 33 nested calls from line 40 exceed the cap, 32 from line 50 do not... both lines run; at least one failure
+                checks.push("some-call-fails OutOfMemory.StackOverflow".into());
+            }
+            if t.starts_with("10 PRINT A(1,1,1,1)") || t.starts_with("10 B(0,0,0,0,0)") || t.starts_with("10 READ T(0,0,0,1)") || t.starts_with("10 INPUT U(1,1,1,1)") {
+                checks.push("some-call-fails OutOfMemory.ArrayTooLarge".into());
+            }
+            cases.push(case_from(w, checks, "targeted".into(), true, t.replace('\n', " | ")));
         }
     }
     let opts = GenOpts::default();
